@@ -148,9 +148,29 @@ def hist_implicit(rng):
     return h
 
 
+def hist_explicit_wide(rng):
+    """explicit-format files whose PIXEL column needs more than 16 bits, written from maps whose valid pixels
+    are NOT listed in ascending order (coverage blocks allocated high-before-low by separate calls)"""
+    spord = rng.choice([6, 7])
+    covord = rng.choice([1, 2])
+    dt = rng.choice(['f8', 'f4', 'i4', 'i2', 'b1'])
+    c = gen.MapCfg('m', 'plain', covord, spord, dtype=dt, sentinel=rng.choice(['default', 'default', '0'])
+                   if dt not in ('b1', 'f4', 'f8') else 'default')
+    h = [c.line()]
+    hi = [rng.randrange(2 ** 15, c.npix) for _ in range(2)]
+    lo = [rng.randrange(0, 2 ** 15) for _ in range(2)]
+    for grp in ([hi, lo] if rng.random() < 0.8 else [lo, hi]):
+        grp = sorted(set(grp))
+        h.append('upd m op=replace pix=%s vals=%s' % (','.join(map(str, grp)), ','.join(
+            (c.val(rng) if dt != 'b1' else 'T') for _ in grp)))
+    h += ['valid m', 'hpxwrite m f=h1', 'hpxread r=r f=h1 covord=%d' % rng.randint(0, 3), 'info r', 'valid r',
+          'nvalid r', 'get r pix=%s path=pix' % ','.join(map(str, hi + lo))]
+    return h
+
+
 def histories(rng, tier):
     n = 300 if tier == 'quick' else 1500
-    out = []
+    out = [hist_explicit_wide(rng) for _ in range(5 if tier == 'quick' else 40)]
     for _ in range(n):
         r = rng.random()
         out.append(hist_dense(rng) if r < 0.35 else hist_addressing(rng) if r < 0.85 else hist_implicit(rng))
